@@ -347,9 +347,17 @@ class CFG:
             i = work.pop(0)
             inwork.discard(i)
             cur: dict[str, set[int]] = {}
+            is_handler = self.nodes[i].kind == "handler"
             for p in self.g.predecessors(i):
-                for k, v in OUT[p].items():
+                # an exception leaves the raising statement before its own assignment took effect
+                src = IN[p] if is_handler else OUT[p]
+                for k, v in src.items():
                     cur.setdefault(k, set()).update(v)
+                if is_handler:
+                    for k, v in OUT[p].items():
+                        # ... unless the statement is compound (its parts may have completed)
+                        if self.nodes[p].kind != "stmt" or not isinstance(self.nodes[p].ast, (ast.Assign, ast.AugAssign, ast.AnnAssign)):
+                            cur.setdefault(k, set()).update(v)
             newin = {k: frozenset(v) for k, v in cur.items()}
             IN[i] = newin
             out = dict(newin)
